@@ -97,7 +97,30 @@ func main() {
 		if r.ThoroughOnly && *tier != "thorough" {
 			continue
 		}
-		results = append(results, core.RunRule(ctx, r))
+		res := core.RunRule(ctx, r)
+		if subs := spec.Only[rn]; len(subs) > 0 {
+			var kept []core.Obligation
+			for _, o := range res.Obligations {
+				keep := strings.HasSuffix(o.Key, ":instance-count") || strings.HasSuffix(o.Key, ":checker-panic") || strings.Contains(o.Key, "anchor")
+				for _, sub := range subs {
+					if strings.Contains(o.Key, sub) {
+						keep = true
+					}
+				}
+				if keep {
+					kept = append(kept, o)
+				}
+			}
+			res.Obligations = kept
+			res.Total = len(kept)
+			res.NonTrivial = 0
+			for _, o := range kept {
+				if !o.Trivial {
+					res.NonTrivial++
+				}
+			}
+		}
+		results = append(results, res)
 	}
 
 	knownByKey := map[string]core.KnownFinding{}
